@@ -217,9 +217,24 @@ func showPool(pool []genTxSpec) string {
 	return strings.Join(s, " ; ")
 }
 
+// genProp is the pseudo-property "C15GEN": it has no cases of its own and only runs the generation oracle
+// below. It is run as part of property C15 ("every block the generator produces is accepted by the same
+// node, including its roots"); it lives in this package because it needs the real application rig of C16.
+type genProp struct{}
+
+func init() { corr.Register(genProp{}) }
+
+func (genProp) ID() string    { return "C15GEN" }
+func (genProp) NoModel() bool { return true }
+func (genProp) Generate(rng *rand.Rand, tier string) []corr.Case {
+	return []corr.Case{{Ops: []string{"reset"}, Tag: "generation-oracle"}}
+}
+func (genProp) RunImpl(c corr.Case) ([]string, []corr.Fail) { return []string{"ok"}, nil }
+func (genProp) Classify(c corr.Case, out []string) string   { return "generation-oracle" }
+
 // Extra: generated chains of 1..4 blocks per scenario, every block generated from a random pool and
 // then executed; plus the directed input of the finding.
-func (prop) Extra(rng *rand.Rand, tier string) corr.ExtraResult {
+func (genProp) Extra(rng *rand.Rand, tier string) corr.ExtraResult {
 	res := corr.ExtraResult{Notes: map[string]any{}}
 	n := 400
 	if tier == "thorough" {
